@@ -814,11 +814,12 @@ def _is_match_shape(cx):
 def r14_1(cx):
     b, why = _is_match_shape(cx)
     cx.report('R14.1', b, 'is_match', why is None, 'is_match = try_find(input.earliest(true)).is_some()' if why is None else why)
+    from rules.utilfn import builder_sets_only
     e = cx.body("util::search::Input::<'h>::earliest")
-    st = [(tt, val) for bi, si, tt, val, s in e.field_stores()]
-    cs = [e.call_term(bi, t) for bi, t in e.calls()]
-    oke = not st and len(cs) == 1 and is_call(cs[0], r'Input::set_earliest$') and is_var(peel(cs[0][2][0]), 'self') and is_var(cs[0][2][1], 'yes') and is_var(e.local_term(0, expand=True), 'self')
-    cx.report('R14.1', e, 'earliest-builder', oke, 'Input::earliest(yes) = { self.set_earliest(yes); self }' if oke else 'Input::earliest does %s' % [tstr(c, 80) for c in cs])
+    whye = builder_sets_only(cx, "util::search::Input::<'h>::earliest", 'earliest', r'Input::set_earliest$')
+    oke = whye is None
+    cs = [whye]
+    cx.report('R14.1', e, 'earliest-builder', oke, 'Input::earliest(yes) = { self.set_earliest(yes); self }' if oke else 'Input::earliest: %s' % whye)
     se = cx.body("util::search::Input::<'h>::set_earliest")
     st = [(tt, val) for bi, si, tt, val, s in se.field_stores()]
     oks = len(st) == 1 and st[0][0][0] == 'f' and st[0][0][2] == 'earliest' and is_var(st[0][1], 'yes')
@@ -1071,15 +1072,9 @@ def r01_6(cx):
             okr = False
     cx.report('R01.6', h, 'returns', okr, 'returns Some(kept m), Some(re-searched m) or the re-search\'s None' if okr else 'returns %s' % [tstr(v, 60) for _, _, v in rets])
     # Input::set_start keeps the end
+    from rules.utilfn import setter_keeps_other_end
     s = cx.body("util::search::Input::<'h>::set_start")
-    ct = [s.call_term(bi, t) for bi, t in s.calls(r'Input::set_span$')]
-    ok = False
-    if len(ct) == 1:
-        sp = peel_all(expand_vars(s, ct[0][2][1]))
-        if is_agg(sp, r'(core::ops::Range|util::search::Span)$') and isinstance(sp[3], dict):
-            e = expand_vars(s, sp[3]['end'])
-            oke = is_call(e, r'Input::end$') or (e[0] == 'f' and e[2] == 'end' and (is_call(expand_vars(s, e[1]), r'Input::get_span$') or (e[1][0] == 'f' and e[1][2] == 'span')))
-            ok = sp[3]['start'] == param_at(s, 2) and oke and is_var(peel(ct[0][2][0]), 'self')
+    ok = setter_keeps_other_end(cx, 'set_start')
     cx.report('R01.6', s, 'set_start', ok, 'set_start(start) = set_span(start..self.end())' if ok else 'set_start does not keep the end of the span')
 
 
